@@ -21,42 +21,42 @@ NOT_APPLICABLE = {
 PENDING = "check not built yet in this session (harness module empty); planned per DESIGN.md section 5"
 
 LEVEL = {
-    "C01": ("Bounded model checking of the real registry code (Kani/CBMC): one real operation from every registry shape up to depth 3 over 2-3 state types with symbolic stored values and arguments, compared with a stack-of-maps reference model and read back cell by cell; inductive one-step, so histories of any length within the shape bound.",
-            "H1 map stand-in replaces std HashMap (differentially checked against BTreeMap and by the repo's own tests under --cfg mahf_verif); depth<=3, <=3 types; panic messages not observed."),
-    "C02": ("Bounded model checking (Kani/CBMC) of the borrow-guard state machine (scripts of <=3 guard operations, symbolic choice), multi-borrow for every tuple type up to arity 4 over 3 types (memory-safety checks on), and holding() for both closure outcomes.",
-            "H1 map/set stand-in; <=4 live guards; arity 5..8 sampled; RefCell from std is real code."),
-    "C03": ("Bounded model checking (Kani/CBMC) of the real control-flow components and of configurations built with the real builder, with symbolic condition outcomes and symbolic fault point, against a reference interpreter; trees up to the stated size, loops <=3 passes.",
-            "restrict-vtable; eyre shim (errors observed as Err only); trees <=4 constructs; default state_init/merge closures."),
-    "C04": ("Bounded model checking (Kani/CBMC): one real stack operation from every stack height 0..4 with symbolic contents and symbolic arguments against a LIFO model; rotation identity by n real calls.",
-            "height<=4, population size<=2; inductive one-step."),
-    "C05": ("Bounded model checking (Kani/CBMC): (1) one arbitrary public-API operation on an arbitrary individual w.r.t. a symbolic objective table; (2) per shipped component, one real execute from an arbitrary invariant-satisfying state re-establishes 'evaluated => objective == f(solution)' everywhere in the state.",
-            "populations<=2, dimension<=2; SymRng draw budget; composition over a run is by induction (C03), not a solver query."),
-    "C06": ("Bounded model checking (Kani/CBMC) of PopulationEvaluator/Sequential with a counting evaluator from symbolic populations of size 0..3 and a symbolic previous counter value; missing evaluator => Err before any execute.",
-            "Sequential only; Parallel (rayon) is outside: Kani has no concurrency model."),
-    "C07": ("Bounded model checking (Kani/CBMC), inductive one-step: BestIndividual::update over all objective pairs; the update component over symbolic populations <=3; elitist archive k<=3 from an arbitrary sorted archive; re-insertion without duplicates.",
-            "run-level clause (final best == minimum returned, per template) is not decided; populations<=3, k<=3."),
-    "C08": ("Bounded model checking (Kani/CBMC) of generator handling only: child generators are a function of the parent stream, a supplied generator is never replaced, Sequential evaluation draws nothing.",
-            "NARROW: schedule/thread independence (rayon), stream distinctness (ChaCha) and whole-run equality are outside this technique."),
-    "C09": ("Bounded model checking (Kani/CBMC) over ALL f64 bit patterns: construction legality, total order consistency (pairs, triples, min/max/sort), operator closure, Pareto dominance vs reference model for vectors up to length 3.",
+    "C01": ("Bounded model checking of the real registry code (Kani/CBMC): one real operation (13 families: reads, insert, remove, set_value, get_mut, every entry-API path, scope push) from every registry shape up to depth 3 (which scopes hold the type) with symbolic stored values and arguments; the result is compared with a stack-of-maps reference model and every scope is popped and compared cell by cell; multi-type lookup across scopes. Inductive one-step, so histories of any length within the shape bound.",
+            "H1 map stand-in replaces std HashMap (the repo's own 51 tests + 146 doctests pass with it under --cfg mahf_verif); depth<=3 (4 after a push), 2 state types; panic messages not observed; quick tier = shapes absent/parent-only/shadowed/absent-in-both (+ two depth-3 shapes), thorough = all 183."),
+    "C02": ("Bounded model checking (Kani/CBMC) of fixed guard scripts with symbolic values and release order (readers block the writer, a writer blocks everyone, other types and other scopes unaffected, panicking accessors), holding() from the top and from the parent scope for both closure outcomes plus a four-step history, and multi-borrow for one tuple type per equality pattern of arity 2-4 (all 117 tuples over three types in the thorough tier) with CBMC's memory-safety checks on.",
+            "H1 map/set stand-in; <=4 live guards; arities 5..8 not instantiated; std RefCell is real code."),
+    "C03": ("Bounded model checking (Kani/CBMC) of configurations built with the real builder / constructors and run through Configuration::run: 11 trees (sequence, if, if/else, scope, shadowing scope, missing requirement, while, nested while, while{scope}, scope{while}) with symbolic condition outcomes (<=2 passes per loop entry) and a symbolic fault point among listed lifecycle events, compared event by event with the structured program each tree denotes; caller state, scope depth, shadowing and the pass counter are checked afterwards.",
+            "per-function recursion bounds (CBMC --unwindset, unwinding assertions on); eyre shim (errors observed as Err only); trees <=4 constructs; default Scope closures."),
+    "C04": ("Bounded model checking (Kani/CBMC): one real stack operation from every stack height 0..3 (4 thorough) with symbolic contents and symbolic arguments against a LIFO model: all accessors for any depth argument, push/pop, in-place edits, push onto an empty top, rotate(n) for all n<=height incl. n applications = identity and rotation after a net pop, the RotatePopulations guard, ClearPopulation.",
+            "height<=4, population size<=2; Duplicate/Interleave only in the thorough tier (std collect on a length the engine cannot fold)."),
+    "C05": ("Bounded model checking (Kani/CBMC): (1) one arbitrary public-API operation (incl. clone_from, equality, population helpers, best memory) on an arbitrary consistent individual w.r.t. a symbolic objective table; (2) one real execute of six shipped components over a generic encoding from an arbitrary consistent state re-establishes 'evaluated => objective == f(solution)' for every individual on the stack and in the best memory.",
+            "components with Vec encodings and All/Merge/MuPlusLambda through a State are thorough-tier best effort; composition over a run is an induction (C03), not a solver query."),
+    "C06": ("Bounded model checking (Kani/CBMC) of Sequential::evaluate and the full PopulationEvaluator step with a call-counting objective function from populations of 0..2 (3 thorough) individuals, each arbitrarily stale or unevaluated before, any previous counter, stack height 2 and empty stack; requirement failure per evaluator identifier.",
+            "Sequential only; Parallel (rayon) is outside: the engine has no concurrency model; whole-run exactness by induction."),
+    "C07": ("Bounded model checking (Kani/CBMC), inductive one-step: BestIndividual::update over all objective pairs; best_individual; the update component from any memory over populations <=2 (3 thorough).",
+            "NOT decided: the elitist-archive clauses (thorough tier, no verdict: sort on a length the engine cannot fold) and the run-level clause (final best == minimum returned, per template)."),
+    "C08": ("Bounded model checking (Kani/CBMC) of generator handling only: the backend is seeded with exactly the given seed, children are a deterministic function of the parent stream, the sequential evaluation step draws nothing, a supplied generator is visible to the insert-if-absent rule.",
+            "NARROW: schedule/thread independence (rayon), stream distinctness of ChaCha12, whole-run equality and Configuration::optimize_with (Kani ICE) are outside this technique."),
+    "C09": ("Bounded model checking (Kani/CBMC) over ALL f64 bit patterns: construction legality, total order consistency (pairs, triples, min/max/sort), operator semantics, operator closure (known finding F-C09a), Pareto dominance vs a reference model for vectors up to length 2 (3 thorough), one operand through each constructor.",
             "vectors longer than 3 outside; IEEE-754 semantics as bit-blasted by CBMC."),
-    "C10": ("Bounded model checking (Kani/CBMC): one evaluation of each condition from a state with symbolic observed value / parameters vs. its specification; change-of over histories of length 3; logical formulas depth<=2 with per-operand evaluation counters; loops n<=3 executed through the real Loop.",
-            "loops with n>3 by induction (exactness of LessThanN for all n + loop step); EveryN n=0 excluded (division by zero is outside the statement)."),
-    "C11": ("Bounded model checking (Kani/CBMC) of every Selection::select called directly on populations of size 0..3 with symbolic objectives, symbolic counts and a symbolic RNG (draw budget), membership by reference; weights monotone in fitness; driver stack effect.",
-            "population<=3(4); distribution not claimed, only support and direction; rejection loops cut by the draw budget."),
-    "C12": ("Bounded model checking (Kani/CBMC) of every Replacement::replace on parents/offspring sizes 0..2 (3) with symbolic objectives and mu, unique tags (multiset containment), plus the driver's stack effect.",
+    "C10": ("Bounded model checking (Kani/CBMC): one evaluation of each condition from a prepared state with symbolic observed value / parameters vs its specification (LessThanN, progress, EveryN, OptimumReached, RandomChance threshold and monotonicity); change-of over symbolic histories of length 3 for both measures; And/Or over 2 operands and Not with per-operand evaluation records; loops n in {0,1,2,3} through the real Loop (n passes, n+1 tests, re-initialisation, counter, final progress).",
+            "And/Or over 3 operands and nested formulas thorough-tier (out of 12 GB); loops n>3 by induction; EveryN n=0 and RandomChance p outside [0,1] excluded (undocumented preconditions)."),
+    "C11": ("Bounded model checking (Kani/CBMC) of every Selection::select called directly on populations of size 0..3 with symbolic objectives and a symbolic RNG (draw budget): counts, membership by reference, documented errors, tournament over the whole population = best, weight direction (proportional_weights; rank operators through the real select with reverse_rank replaced by its specification), IWO counts, driver stack effect.",
+            "population<=3; distribution not claimed, only support, count and direction; roulette/SUS sampling and DE selections on 3 individuals thorough-tier best effort; rejection loops cut by the draw budget."),
+    "C12": ("Bounded model checking (Kani/CBMC) of every Replacement::replace on parents/offspring sizes 0..2 (3 thorough) with symbolic objectives and mu, unique tags (multiset containment), plus the driver's stack effect incl. empty offspring, a population underneath and error propagation.",
             "sizes<=3; symbolic RNG with draw budget."),
-    "C13": ("Bounded model checking (Kani/CBMC): differential harnesses for the paired helper implementations, gene conservation of crossovers, permutation-ness, parameter acceptance of constructors, component stack effects; lengths 2..5.",
-            "lengths above the bound and the distribution of mutation noise are outside."),
-    "C14": ("Bounded model checking (Kani/CBMC) of the four boundary operators over all finite coordinates within K widths of the domain (termination = passing unwinding assertion) and of the initialisers for sizes 0..2 x dims 0..2 with symbolic draws.",
-            "|x-mid|<=K widths (K=2 quick, 8 thorough); dimension<=2; concrete domains where the symbolic multiplier does not fit."),
-    "C17": ("Bounded model checking (Kani/CBMC) of ExponentialAnnealingAcceptance::execute over all objectives, temperatures and the uniform draw with exp axiomatised and recorded; geometric cooling exactness.",
-            "libm accuracy of exp is outside (axioms listed in evidence)."),
-    "C18": ("Bounded model checking (Kani/CBMC), inductive one-step of the PSO velocity/position update (bit-exact recomputation, clamp), memory updates and linear inertia weight.",
-            "swarm<=2 x dim<=2, magnitudes<=2^20; one-product variants in quick."),
-    "C19": ("Bounded model checking (Kani/CBMC), inductive one-step: tour validity of AcoGeneration from any finite non-negative pheromone matrix (3 cities), evaporate-then-deposit exactness and bounds of the two updates.",
-            "3 (4) cities; alpha,beta in {0,1,2} or powf axioms; distances within stated magnitudes."),
-    "C20": ("Bounded model checking (Kani/CBMC), inductive one-step of each CRO update: bit-exact recomputation of the written energies (conservation then follows from x*(1-a)+x*a=x plus a rounding bound), non-negativity, alignment, stack consumption.",
-            "populations<=3, energies<=2^20; duplicates in the population outside."),
+    "C13": ("Bounded model checking (Kani/CBMC): differential harnesses for the paired helper implementations (circular swap on length 4; slice translocation on every shape of length 4 and five of length 5), gene conservation of uniform / n-point crossover, arithmetic crossover for alpha in {0,1}, constructor parameter ranges, UniformCrossover::recombine.",
+            "lengths above 5; mutation noise distributions; the recombination driver, DE mutation, cycle crossover and the permutation-mutation components are thorough-tier (28-44 GB, partly undecided); F-C13d (TranslocationMutation) is a known finding of the thorough tier."),
+    "C14": ("Bounded model checking (Kani/CBMC) of the boundary operators over all finite coordinates within K domain widths (Saturation: any domain; Toroidal/Mirror: concrete domains; termination = passing unwinding assertion) and of the initialisers for sizes 0..2 x dims 0..3 with symbolic draws (counts, dimensions, per-dimension domains, permutation-ness).",
+            "|x-mid|<=K widths (K=2 quick, 8 thorough); the one-tailed correction only for coordinates inside the closed domain (its re-sampling path does not fit 28 GB); boundary driver thorough-tier."),
+    "C17": ("Bounded model checking (Kani/CBMC) of ExponentialAnnealingAcceptance::execute over all finite objectives, temperatures and the uniform draw with exp axiomatised and its argument recorded (better-or-equal always accepted; worse accepted iff u < exp(arg); exponent bit-equal for T=2); stack effect at heights 2 and 3; geometric cooling constructor, map and execute.",
+            "libm accuracy of exp is outside (axioms listed in the harness module); exponent for all T and alpha=0.9 thorough-tier."),
+    "C18": ("Bounded model checking (Kani/CBMC), inductive one-step: constructors; linear inertia weight (map and through the lenses); personal-best and global-best updates for one particle; the velocity/position step for 1 particle x 1 dimension with the stored inertia weight fixed to 0.5 and c1=c2=0 (clamp, move-by-velocity bit-exact, stored weight used).",
+            "symbolic stored weight and c1/c2 != 0 (symbolic x symbolic products) thorough-tier, partly undecided; swarm<=2 x dim 1; magnitudes<=2^20."),
+    "C19": ("Bounded model checking (Kani/CBMC), inductive one-step on a 3-city instance: pheromone matrix operations; AS and max-min updates recomputed bit-exactly (evaporate first, then symmetric reinforcement of consecutive edges of the rewarded tour, bounds for the max-min variant) with two symbolic trails and a fixed tour length.",
+            "full symbolic matrix / tour length and tour generation (rand WeightedIndex) thorough-tier best effort; evaporation 0.5; alpha=beta=1."),
+    "C20": ("Bounded model checking (Kani/CBMC), inductive one-step of the CRO updates over a generic encoding: synthesis for three reactant orders (placement, record alignment, uninvolved molecule intact, energies non-negative and bounded), on-wall collision (structure, hit counters, rejection changes no energy), wrong stack layouts are errors.",
+            "bit-exact conservation for synthesis, decomposition and the intermolecular collision are thorough-tier (decided, 10-20 min each); conservation up to rounding for the random-factor splits is not decided; populations<=3, energies<=2^20; duplicates in the population outside."),
 }
 
 
@@ -82,7 +82,7 @@ def main():
             "engine": "kani-cbmc",
             "level_claimed": {"category": "model_checking",
                               "text": text + " (%d harnesses quick, %d thorough.) Bounded: nothing is claimed outside the stated bounds." % (nq, len(hs)),
-                              "design_ref": "DESIGN.md section 5 " + p},
+                              "design_ref": "DESIGN.md section 0.3 (as built) and section 5 " + p},
             "level_note": note + " Common trusted base: Kani 0.68/CBMC 6.11/CaDiCaL; eyre/color-eyre control-flow shims and foldable better_any ids in the verification workspace; hook H1 (registry map stand-in). Counterexamples are reported only after native replay against the unmodified crate.",
             "technique": "bounded model checking of the compiled Rust code (Kani -> CBMC -> SAT), symbolic inputs/RNG draws, native replay of counterexamples",
         })
